@@ -336,8 +336,16 @@ pub fn run(opts: &Opts, out: &mut Emitter) {
                     env.insert(name.to_string(), val);
                 }
                 _ => {
-                    // both: the argument wins
-                    env.insert(name.to_string(), json!("shadowed-by-the-argument"));
+                    // both: the argument wins (the environment's entry is still read: a value it cannot read refuses
+                    // the request, another good value is replaced by the argument)
+                    let alt = match *name {
+                        "addr" => json!(hx(&[0x61; 29])),
+                        "anchor" => json!("00aa#5"),
+                        "blob" => json!("0xbeef"),
+                        "flag" => json!(false),
+                        _ => json!("7"),
+                    };
+                    env.insert(name.to_string(), if r.chance(1, 4) { json!("shadowed-by-the-argument") } else { alt });
                     args.insert(name.to_string(), val);
                 }
             }
